@@ -2,6 +2,7 @@
 package launchh
 
 import (
+	"sort"
 	"context"
 	"fmt"
 	"net"
@@ -134,6 +135,7 @@ func (t *c36Tables) expected(addr *net.UDPAddr, handler, clientID string, bound 
 }
 
 type c36Req struct {
+	idle      time.Duration // how long the address had not been used before this request (-1: first use)
 	uncertain bool // the binding changed under the request, or a request of another rule shared the limiter
 	at      time.Duration
 	allowed bool
@@ -350,6 +352,11 @@ func c36Run(r *simkit.Run) {
 		had := h.VerifHasAddr(addr.String())
 		now := time.Since(start)
 
+		idle := time.Duration(-1)
+		if la, ok := lastAccess[addr.String()]; ok {
+			idle = now - la
+		}
+
 		if la, ok := lastAccess[addr.String()]; ok && !had && now-la < args.ExpireAddr {
 			// the address was dropped although it was not idle long enough: only max-addrs pressure does that
 			evicted[addr.String()] = true
@@ -432,7 +439,7 @@ func c36Run(r *simkit.Run) {
 			}
 		}
 
-		history[key] = append(history[key], c36Req{uncertain: uncertain, at: now, allowed: allowed, rule: wantType + ":" + wantRule.name(), burst: wantRule.burst, rate: rate})
+		history[key] = append(history[key], c36Req{idle: idle, uncertain: uncertain, at: now, allowed: allowed, rule: wantType + ":" + wantRule.name(), burst: wantRule.burst, rate: rate})
 
 		if wantRule.kind == 2 && allowed && !uncertain {
 			r.Fail("over-rate", "zero-rule-allowed", "a request under a zero rule was allowed")
@@ -474,7 +481,15 @@ func c36Run(r *simkit.Run) {
 	r.Sched(simkit.SchedOpts{MaxSteps: 200000, KeepGoing: true, Until: func() bool { return stopped }, MaxSim: 2 * time.Hour})
 
 	// ---- within any window: allowed <= burst + rate x window (per address+handler, while the rule stayed the same) ----
-	for key, reqs := range history {
+	hkeys := make([]string, 0, len(history))
+	for key := range history {
+		hkeys = append(hkeys, key)
+	}
+
+	sort.Strings(hkeys)
+
+	for _, key := range hkeys {
+		reqs := history[key]
 		addr := key[:strings.LastIndex(key, "/")]
 
 		for i := 0; i < len(reqs); i++ {
@@ -506,8 +521,14 @@ func c36Run(r *simkit.Run) {
 
 				if float64(count) > limit {
 					sig := "same-limiter"
-					if evicted[addr] {
+
+					switch {
+					case evicted[addr]:
 						sig = "after-eviction-by-max-addrs"
+					case reqs[i].idle >= args.ExpireAddr:
+						// the window starts with the first request after an idle period: the shrink daemon
+						// judged the address idle and dropped it although this request had just used its limiter
+						sig = "idle-address-dropped-while-its-next-request-is-served"
 					}
 
 					r.Fail("over-rate", sig, "%s under rule %s: %d requests allowed within %.6fs, the rule permits burst %d + %.3f/s x window = %.3f",
@@ -523,6 +544,8 @@ func keys(m map[string]*c36Map) []string {
 	for x := range m {
 		k = append(k, x)
 	}
+
+	sort.Strings(k)
 
 	return k
 }
